@@ -27,8 +27,11 @@ Definition firm_pointwise (c : fcomp) (fcst obs : larr) (alpha : xv) (ths wts : 
      lget := fun e => firm_point c (lget fcst e) (lget obs e) alpha d assign
                         (combine (map (fun t => lget t e) ths) (map (fun w => lget w e) wts)) |}.
 
-Definition firm_m (c : fcomp) (fcst obs : larr) (alpha : xv) (ths wts : list larr) (d : xv)
+(* discount_distance=None is documented to mean no discounting: the guard skips it, `if discount_distance:` is False *)
+Definition firm_disc (dopt : option xv) : xv := match dopt with Some d => d | None => X0 end.
+Definition firm_m (c : fcomp) (fcst obs : larr) (alpha : xv) (ths wts : list larr) (dopt : option xv)
     (rd pd : dimspec) (w : option larr) (assign : string) : result larr :=
+  let d := firm_disc dopt in
   (* _check_firm_inputs: all ValueError (DimensionError is a subclass), so their order is immaterial *)
   do _ <- guard (Nat.ltb (length ths) 1) ValueError ;;
   do _ <- guard (negb (Nat.eqb (length ths) (length wts))) ValueError ;;
@@ -171,10 +174,27 @@ Definition scaling_to_wm_with (init : nat) (M : list (list Z)) (aw : list Q) : l
   let pl := placements init M aw in
   (* np.flip(wts, axis=0) *)
   map (fun r' => map (fun c => wts_entry pl (n_prob - 1 - r')%nat c) (seq 0 n_sev)) (seq 0 n_prob).
+(* the code: `lowest_prob_index = n_prob + 1` with n_prob = rows - 1 *)
 Definition scaling_to_wm (M : list (list Z)) (aw : list Q) : list (list Q) :=
-  scaling_to_wm_with (max_level M aw + 1) M aw.
+  scaling_to_wm_with (length M - 1 + 1) M aw.
+
+(* declarative specification (coq/proofs/C12_scaling.v: scaling_to_wm_is_spec).
+   cross M l c = crossover index of level l in column c: position, counted from the bottom row, of the first entry >= l
+   (0: the column never reaches the level).  The weight of level l goes to (row cross - 1, column c - 1) for exactly the
+   columns c whose crossover exists and is strictly lower than that of every column to the left that has one. *)
+Definition cross (M : list (list Z)) (level c : nat) : nat := argmax_ge (rev (colz M c)) (Z.of_nat level).
+Definition place (M : list (list Z)) (aw : list Q) (level c : nat) : nat * nat * Q :=
+  ((cross M level c - 1)%nat, (c - 1)%nat, nth (level - 1) aw 0).
+Definition gets_weight (M : list (list Z)) (level c : nat) : bool :=
+  (0 <? cross M level c)%nat &&
+  forallb (fun c' => (cross M level c' =? 0)%nat || (cross M level c <? cross M level c')%nat) (seq 1 (c - 1)).
+Definition spec_placements (M : list (list Z)) (aw : list Q) : list (nat * nat * Q) :=
+  flat_map (fun level => map (place M aw level) (filter (gets_weight M level) (seq 1 (length (hd [] M) - 1))))
+           (seq 1 (max_level M aw)).
 Definition scaling_to_wm_spec (M : list (list Z)) (aw : list Q) : list (list Q) :=
-  scaling_to_wm_with (length M) M aw.           (* n_prob + 1 = number of rows *)
+  let n_sev := (length (hd [] M) - 1)%nat in let n_prob := (length M - 1)%nat in
+  let pl := spec_placements M aw in
+  map (fun r' => map (fun c => wts_entry pl (n_prob - 1 - r')%nat c) (seq 0 n_sev)) (seq 0 n_prob).
 
 (* weights_from_warning_scaling: the checks (all ValueError), then the two functions above *)
 Fixpoint nondecr (l : list Z) : bool :=
@@ -231,7 +251,7 @@ Definition entries_C12 : list entry := [
   ("c12_firm", fun r => orun (
      match r with RL [f; o; a; ths; wts; d; rd; pd; w; s] =>
        let? f := d_larr f in let? o := d_larr o in let? a := d_xv a in let? ths := d_list d_larr ths in
-       let? wts := d_list d_larr wts in let? d := d_xv d in let? rd := d_dimspec rd in let? pd := d_dimspec pd in
+       let? wts := d_list d_larr wts in let? d := d_opt d_xv d in let? rd := d_dimspec rd in let? pd := d_dimspec pd in
        let? w := d_opt d_larr w in let? s := d_str s in
        Some (match firm_m FTotal f o a ths wts d rd pd w s, firm_m FOver f o a ths wts d rd pd w s,
                    firm_m FUnder f o a ths wts d rd pd w s with
